@@ -113,7 +113,14 @@ static void dump(void) {
         }
         close(fd);
       }
-      printf(" file i%zu %zu %016llx\n", cls, n, fnv(buf, n));
+      int readable = access(e->path, R_OK) == 0;
+      printf(" file i%zu %zu %016llx %c ", cls, n, fnv(buf, n), readable ? 'r' : '-');
+      if (n <= 4096) {
+        print_hexn((char *)buf, n);
+      } else {
+        printf("-");
+      }
+      printf("\n");
       free(buf);
     }
     free(e->path);
@@ -250,8 +257,8 @@ int drv_world(void) {
       W.root = g_root;
       (void)fds;
       log_on = 0;
-    } else if (!strcmp(op, "root")) {
-      /* model-side only */
+    } else if (!strcmp(op, "root") || !strcmp(op, "resume")) {
+      /* root: model-side only; resume: continue on the same sandbox in a new process */
     } else if (!strcmp(op, "clock")) {
       W.clock = atol(t[1]);
     } else if (!strcmp(op, "log")) {
@@ -340,10 +347,12 @@ int drv_world(void) {
       H = load_handler(cfg_path, cpl, T);
       end_op("start", H ? "ok" : "error");
     } else if (!strcmp(op, "stop")) {
-      begin_op();
-      free_handler(H);
-      H = NULL;
-      end_op("stop", "ok");
+      if (H) {
+        begin_op();
+        free_handler(H);
+        H = NULL;
+        end_op("stop", "ok");
+      }
     } else if (!strcmp(op, "exec") || !strcmp(op, "write")) {
       char *p = abspath(t[2]);
       int fd = open(p, op[0] == 'e' ? O_RDONLY : O_PATH);
